@@ -398,7 +398,27 @@ def run_case(c):
                     if not later and not transmitted:
                         res.violate("resume", "no ping was sent within one interval of the replacement connection; %s" % info,
                                     input_class="monitoring-not-resumed")
-        # ---- stop: no monitor timer may survive
+        # ---- stop: the Leader closes first; from the moment its Manager has been told to stop (STOPPING while the
+        # connection is still closing, then STOPPED) no interval timer of the monitor may be scheduled
+        stop_bad = []
+        try:
+            case.install_traces()
+
+            def chk(cs):
+                if stop_bad or cs.state_name(L) not in ("STOPPING", "STOPPED"):
+                    return
+                mt = [dc for dc in W.clock.getDelayedCalls() if "timer_expired" in getattr(dc.func, "__qualname__", "")]
+                if mt:
+                    stop_bad.append((cs.state_name(L), len(mt)))
+            if case.closed_called[li] is None and L._connection is not None:
+                case._do_intent(["wclose", li])
+                chk(case)
+                case.settles.append(case.settle(after_step=chk, max_time=2 * P + 5.0))
+        except Exception as ex:
+            res.notes["stop_phase_error:%s" % type(ex).__name__] += 1
+        if stop_bad:
+            res.violate("stop", "dilation was stopped (Leader Manager %s) but %d interval timer(s) of the traffic monitor are "
+                        "still scheduled" % stop_bad[0], input_class="monitor-timer-survives-stop")
         case.close_all()
         left = [dc for dc in W.clock.getDelayedCalls()]
         if left and all(case.close_results[i] for i in range(2)):
